@@ -174,6 +174,40 @@ theorem _root_.KafVerif.C37.forward_sound (e : Env) (a : Acl) (enabled : Bool) (
 theorem _root_.KafVerif.C37.authorize_sound (e : Env) (a : Acl) (q : Bytes) (h : authorize e a q = true) :
     Safe a (upstreamView e q) := KafVerif.SqlProxy.authorize_sound e a q h
 
+
+/-- **C37 (cache key).** A cache hit is always for the byte-identical text: the decision that is
+reused was stored under exactly the text now being forwarded (no normalisation, no case folding). -/
+theorem _root_.KafVerif.C37.cache_hit_exact_text (c : Cache) (key : Bytes) (ex : Bool) (d : Bool)
+    (h : (cacheGet c key ex).2 = some d) : (key, d) ∈ c.entries := by
+  unfold cacheGet at h
+  split at h
+  · simp at h
+  · split at h
+    · simp at h
+    · rename_i en hfind
+      split at h
+      · simp at h
+      · simp only [Option.some.injEq] at h
+        have hmem := List.mem_of_find?_eq_some hfind
+        have hkey := List.find?_some hfind
+        simp only [beq_iff_eq] at hkey
+        have : en = (key, d) := by
+          cases en; simp only at hkey h; simp [hkey, h]
+        rw [← this]; exact hmem
+
+/-- … and `handle` looks the cache up under the text itself -/
+theorem handle_key_is_text (e : Env) (a : Acl) (c : Cache) (q : Bytes) (ex : Bool) (d : Bool)
+    (h : (cacheGet c q ex).2 = some d) :
+    (handle e a c q ex).2 = (if d then some q else none) ∧ (q, d) ∈ c.entries := by
+  refine ⟨?_, KafVerif.C37.cache_hit_exact_text c q ex d h⟩
+  unfold handle
+  cases hget : cacheGet c q ex with
+  | mk c1 hit =>
+    rw [hget] at h
+    simp only at h
+    subst h
+    rfl
+
 /-! ### the code before the fix -/
 
 /-- a toy parser: the statement's only topic is its last byte -/
